@@ -56,6 +56,8 @@ type PScript struct {
 	Signal   string
 	Phases   []Phase
 	FreezeMS int // how long the reading counter is watched after Shutdown returned
+	// CancelStartCtx: the context given to Start is cancelled right after Start returned.
+	CancelStartCtx bool
 }
 
 var cP = vt.New("C18", "consume")
@@ -112,6 +114,8 @@ func genP(t *rapid.T) PScript {
 		Kind:     rapid.SampledFrom([]string{"processor", "processor", "processor", "extension"}).Draw(t, "kind"),
 		Signal:   rapid.SampledFrom(sig.All).Draw(t, "signal"),
 		FreezeMS: rapid.IntRange(2, 5).Draw(t, "freeze"),
+
+		CancelStartCtx: rapid.Bool().Draw(t, "cancel-start-ctx"),
 	}
 	s.Phases = genPhases(t, s.Cfg.thresholds(), s.Signal, 2, 6, s.Kind == "processor")
 	return s
@@ -278,7 +282,7 @@ func stallSig(stalled, why string) string {
 
 func keyP(s *PScript) string {
 	h := sha256.New()
-	fmt.Fprintf(h, "%v|%s|%s", s.Cfg, s.Kind, s.Signal)
+	fmt.Fprintf(h, "%v|%s|%s|%v", s.Cfg, s.Kind, s.Signal, s.CancelStartCtx)
 	for _, ph := range s.Phases {
 		fmt.Fprintf(h, "|%d,%d", ph.First, ph.Post)
 		for _, c := range ph.Calls {
@@ -358,7 +362,7 @@ func runPInner(s *PScript, th Thr) (nontrivial bool, f *vt.Finding) {
 		restore()
 		return false, vt.Failf("harness/kind", "unknown kind %q", s.Kind)
 	}
-	if err := comp.Start(ctx, componenttest.NewNopHost()); err != nil {
+	if err := startComp(comp, componenttest.NewNopHost(), s.CancelStartCtx); err != nil {
 		return false, vt.Failf("harness/start", "Start: %v", err)
 	}
 	stopped := false
@@ -367,13 +371,18 @@ func runPInner(s *PScript, th Thr) (nontrivial bool, f *vt.Finding) {
 			_ = comp.Shutdown(ctx)
 		}
 	}()
-	cP.Class("kind:"+s.Kind, "form:"+th.Form, fmt.Sprintf("gc-intervals:soft=%dms,hard=%dms", s.Cfg.SoftGCms, s.Cfg.HardGCms))
+	cP.Class(fmt.Sprintf("start-ctx-cancelled-after-Start=%v", s.CancelStartCtx), "kind:"+s.Kind, "form:"+th.Form, fmt.Sprintf("gc-intervals:soft=%dms,hard=%dms", s.Cfg.SoftGCms, s.Cfg.HardGCms))
 	flips, prev := 0, false
 	for i, ph := range s.Phases {
 		id := src.setLevel(ph.First, ph.Post)
 		where := fmt.Sprintf("%s %s phase %d (first=%d [%s] post=%d [%s], soft=%d hard=%d, %v)", s.Kind, s.Signal, i, ph.First, th.place(ph.First), ph.Post, th.place(ph.Post), th.Soft, th.Hard, s.Cfg)
 		if why := src.awaitCheckWhy(id, stallTicks); why != "" {
-			return true, vt.Failf(stallSig("checker/not-running-while-started", why), "%s: %s", where, why)
+			stalled := "checker/not-running-while-started"
+			if s.CancelStartCtx {
+				stalled = "checker/stops-when-start-context-is-cancelled"
+				where += " [the context given to Start was cancelled after Start returned]"
+			}
+			return true, vt.Failf(stallSig(stalled, why), "%s: %s", where, why)
 		}
 		want, wantGC := expectRefuse(s.Cfg, th, ph.First, ph.Post)
 		if ext != nil {
@@ -431,5 +440,5 @@ func frozen(src *source, ms int, what string) *vt.Finding {
 
 func TestConsume(t *testing.T) {
 	shrinkBudget("10s") // a failing case costs milliseconds to seconds: bound the time rapid spends minimising
-	vt.Run(t, cP, vt.N(900, 24000), genP, runP)
+	vt.Run(t, cP, vt.N(720, 24000), genP, runP)
 }
